@@ -3,24 +3,46 @@
 package grpcgcp
 
 import (
+	"context"
+	"time"
+
 	"google.golang.org/grpc/balancer"
+	"google.golang.org/grpc/codes"
 	"google.golang.org/grpc/connectivity"
 	"google.golang.org/grpc/grpclog"
 	"google.golang.org/grpc/resolver"
-
-	pb "github.com/GoogleCloudPlatform/grpc-gcp-go/grpcgcp/grpc_gcp"
+	"google.golang.org/grpc/status"
 )
+
+// ---- gRPC side of the balancer API (DESIGN.md section 4.1) ----
 
 type verifSC struct {
 	id       int
 	connects int
 	addrs    []resolver.Address
+	addrTag  int // ghost: tag of the address list last given (C20)
 }
 
-func (s *verifSC) UpdateAddresses(a []resolver.Address) { s.addrs = a }
+func (s *verifSC) UpdateAddresses(a []resolver.Address) { s.addrs = a; s.addrTag = verifAddrTag(a) }
 func (s *verifSC) Connect()                             { s.connects++ }
 func (s *verifSC) GetOrBuildProducer(balancer.ProducerBuilder) (balancer.Producer, func()) {
 	return nil, nil
+}
+
+// verifAddrTag identifies an address list by its length and first address (lists used by the
+// harness differ in exactly these).
+func verifAddrTag(a []resolver.Address) int {
+	if len(a) == 0 {
+		return 0
+	}
+	t := len(a) * 10
+	if a[0].Addr == "y" {
+		t++
+	}
+	if a[0].Addr == "z" {
+		t += 2
+	}
+	return t
 }
 
 type verifCC struct {
@@ -35,12 +57,15 @@ type verifCC struct {
 	pubCount   int
 	lastState  connectivity.State
 	lastPicker balancer.Picker
+	resolveNow int
 }
 
 type verifErr struct{}
 
 func (verifErr) Error() string { return "verif" }
 
+// NewSubConn fails on an empty address list, as real gRPC 1.56 does (balancer_conn_wrappers.go),
+// or when the persistent flag failNew is set (failing connection factory).
 func (c *verifCC) NewSubConn(a []resolver.Address, o balancer.NewSubConnOptions) (balancer.SubConn, error) {
 	if len(a) == 0 || c.failNew {
 		return nil, verifErr{}
@@ -49,6 +74,7 @@ func (c *verifCC) NewSubConn(a []resolver.Address, o balancer.NewSubConnOptions)
 	c.nextFresh++
 	c.created++
 	s.addrs = a
+	s.addrTag = verifAddrTag(a)
 	return s, nil
 }
 func (c *verifCC) RemoveSubConn(sc balancer.SubConn) { c.removedCnt++; c.lastRemove = sc }
@@ -58,182 +84,113 @@ func (c *verifCC) UpdateState(s balancer.State) {
 	c.lastState = s.ConnectivityState
 	c.lastPicker = s.Picker
 }
+func (c *verifCC) ResolveNow(resolver.ResolveNowOptions) { c.resolveNow++ }
+func (c *verifCC) Target() string                        { return "verif" }
 
 type verifLogger struct {
 	grpclog.LoggerV2
 	verbose bool
 }
 
-func (l *verifLogger) V(int) bool                        { return l.verbose }
-func (l *verifLogger) Info(args ...interface{})           {}
-func (l *verifLogger) Infoln(args ...interface{})         {}
-func (l *verifLogger) Infof(f string, a ...interface{})   {}
+func (l *verifLogger) V(int) bool                          { return l.verbose }
+func (l *verifLogger) Info(args ...interface{})            {}
+func (l *verifLogger) Infoln(args ...interface{})          {}
+func (l *verifLogger) Infof(f string, a ...interface{})    {}
+func (l *verifLogger) Warning(args ...interface{})         {}
+func (l *verifLogger) Warningln(args ...interface{})       {}
 func (l *verifLogger) Warningf(f string, a ...interface{}) {}
-func (l *verifLogger) Errorf(f string, a ...interface{})  {}
+func (l *verifLogger) Error(args ...interface{})           {}
+func (l *verifLogger) Errorln(args ...interface{})         {}
+func (l *verifLogger) Errorf(f string, a ...interface{})   {}
 
-const (
-	vM = 2 // pre-existing connection identities
-	vR = 3 // slots
-)
+// ---- context ----
 
-type verifWorld struct {
-	gb    *gcpBalancer
-	cc    *verifCC
-	scs   [vM]*verifSC
-	refs  [vR]*subConnRef
-	gp    *gcpPicker
-	errTF *errPicker
-	errNo *errPicker
+type verifCtx struct {
+	gcp    *gcpContext
+	hasGcp bool
+	dl     time.Time
+	hasDl  bool
+	done   chan struct{}
 }
 
-func verifEval(nr, nc uint64) connectivity.State {
-	if nr > 0 {
-		return connectivity.Ready
+func (c *verifCtx) Value(k interface{}) interface{} {
+	if k == interface{}(gcpKey) && c.hasGcp {
+		return c.gcp
 	}
-	if nc > 0 {
-		return connectivity.Connecting
-	}
-	return connectivity.TransientFailure
+	return nil
+}
+func (c *verifCtx) Deadline() (time.Time, bool) { return c.dl, c.hasDl }
+func (c *verifCtx) Done() <-chan struct{}       { return c.done }
+func (c *verifCtx) Err() error                  { return nil }
+
+var _ context.Context = (*verifCtx)(nil)
+
+// ---- messages: the real getAffinityKeysFromMessage returns on *verifMsg with locator "keys"
+// exactly what verifKeysSummary returns (validated by the C11 harness on this type) ----
+
+type verifMsg struct {
+	Keys []string
 }
 
-// inPickerList reports whether slot r is in the picker's list.
-func (w *verifWorld) inPicker(p *gcpPicker, r *subConnRef) bool {
-	in := false
-	for i := 0; i < len(p.scRefs); i++ {
-		in = verifOr(in, p.scRefs[i] == r)
+func verifKeysSummary(locator string, msg interface{}) ([]string, error) {
+	m, ok := msg.(*verifMsg)
+	if !ok || m == nil || locator != "keys" {
+		return nil, verifErr{}
 	}
-	return in
+	out := []string{}
+	for _, k := range m.Keys {
+		out = append(out, k)
+	}
+	return out, nil
 }
 
-// verifInv returns the conjuncts of Inv_gb that this spike checks, evaluated without forking.
-func (w *verifWorld) inv(check func(bool, string)) {
-	gb, cc := w.gb, w.cc
-	var nr, nc, nt uint64
-	for i := 0; i < vM+2; i++ {
-		var sc balancer.SubConn
-		if i < vM {
-			sc = w.scs[i]
-		} else {
-			sc = cc.fresh[i-vM]
+// ---- virtual clock ----
+
+var verifClock time.Time
+
+func verifNow() time.Time { return verifClock }
+
+// ---- completion errors: kind 0 nil, 1 client-side deadline, 2 deadline with another text, 3 other ----
+
+type verifErrKind struct{ kind int }
+
+func (e *verifErrKind) Error() string {
+	switch e.kind {
+	case 1:
+		return "rpc error: code = DeadlineExceeded desc = context deadline exceeded"
+	case 2:
+		return "rpc error: code = DeadlineExceeded desc = server side deadline"
+	}
+	return "rpc error: code = Unavailable desc = other"
+}
+
+// GRPCStatus makes the real status.Code agree with verifStatusCode in native replays.
+func (e *verifErrKind) GRPCStatus() *status.Status {
+	switch e.kind {
+	case 1:
+		return status.New(codes.DeadlineExceeded, "context deadline exceeded")
+	case 2:
+		return status.New(codes.DeadlineExceeded, "server side deadline")
+	}
+	return status.New(codes.Unavailable, "other")
+}
+
+func verifStatusCode(err error) codes.Code {
+	if err == nil {
+		return codes.OK
+	}
+	if e, ok := err.(*verifErrKind); ok {
+		if e.kind == 1 || e.kind == 2 {
+			return codes.DeadlineExceeded
 		}
-		r, inPool := gb.scRefs[sc]
-		s, hasState := gb.scStates[sc]
-		check(inPool == hasState, "I-pool: domains")
-		check(verifImplies(inPool, r != nil), "I-pool: nil slot")
-		check(verifImplies(inPool, verifOrElse(r, w.refs[0]).subConn == sc), "I-pool: slot identity")
-		check(verifImplies(hasState, s != connectivity.Shutdown), "I-pool: shutdown stored")
-		nr += verifB2U(verifAnd(hasState, s == connectivity.Ready))
-		nc += verifB2U(verifAnd(hasState, s == connectivity.Connecting))
-		nt += verifB2U(verifAnd(hasState, s == connectivity.TransientFailure))
-		_, repl := gb.refreshingScRefs[sc]
-		check(!verifAnd(repl, inPool), "I-refr: replacement in pool")
-		for j := 0; j < vR; j++ {
-			// a slot whose connection is a pool member is that member's slot; a replacement is nobody's connection yet
-			check(verifImplies(verifAnd(inPool, w.refs[j].subConn == sc), r == w.refs[j]), "I-pool: slot back-pointer")
-			check(verifImplies(repl, w.refs[j].subConn != sc), "I-refr: replacement already owned")
-		}
+		return codes.Unavailable
 	}
-	check(gb.csEvltr.numReady == nr, "I-cnt: ready")
-	check(gb.csEvltr.numConnecting == nc, "I-cnt: connecting")
-	check(gb.csEvltr.numTransientFailure == nt, "I-cnt: tf")
-	ev := verifEval(nr, nc)
-	check(verifImplies(!cc.published, nr == 0), "I-agg: ready but unpublished")
-	check(verifImplies(cc.published, gb.state == ev), "I-agg: state")
-	check(verifImplies(cc.published, cc.lastState == gb.state), "I-agg: published state")
-	check(verifImplies(cc.published, cc.lastPicker == gb.picker), "I-agg: published picker")
-	ep, isErr := gb.picker.(*errPicker)
-	gp, isGcp := gb.picker.(*gcpPicker)
-	check(verifImplies(cc.published, verifAnd(gb.state == connectivity.TransientFailure, verifAnd(isErr, ep != nil)) == isErr), "I-pick: err picker iff TF")
-	if isErr {
-		check(verifImplies(cc.published, ep.err == balancer.ErrTransientFailure), "I-pick: TF error value")
-	}
-	if isGcp {
-		for j := 0; j < vR; j++ {
-			r := w.refs[j]
-			ready := false
-			for i := 0; i < vM+2; i++ {
-				var sc balancer.SubConn
-				if i < vM {
-					sc = w.scs[i]
-				} else {
-					sc = cc.fresh[i-vM]
-				}
-				rr, ok := gb.scRefs[sc]
-				ready = verifOr(ready, verifAnd(verifAnd(ok, rr == r), gb.scStates[sc] == connectivity.Ready))
-			}
-			check(verifImplies(cc.published, w.inPicker(gp, r) == ready), "I-pick: slot set")
-		}
-	}
+	return codes.Unknown
 }
 
-func verifMkWorld() *verifWorld {
-	w := &verifWorld{}
-	cc := &verifCC{fresh: []*verifSC{{id: 100}, {id: 101}}, failNew: verifBool("failNew")}
-	w.cc = cc
-	gb := &gcpBalancer{
-		cc:               cc,
-		methodCfg:        make(map[string]*pb.AffinityConfig),
-		affinityMap:      make(map[string]balancer.SubConn),
-		fallbackMap:      make(map[string]balancer.SubConn),
-		scRefs:           make(map[balancer.SubConn]*subConnRef),
-		scStates:         make(map[balancer.SubConn]connectivity.State),
-		refreshingScRefs: make(map[balancer.SubConn]*subConnRef),
-		csEvltr:          &connectivityStateEvaluator{numReady: verifU64("nr"), numConnecting: verifU64("nc"), numTransientFailure: verifU64("nt")},
-		log:              &verifLogger{verbose: verifBool("verbose")},
-		state:            connectivity.State(verifInt("gbstate")),
+func verifMkErr(kind int) error {
+	if kind == 0 {
+		return nil
 	}
-	w.gb = gb
-	gb.cfg = &GCPBalancerConfig{ApiConfig: &pb.ApiConfig{ChannelPool: &pb.ChannelPoolConfig{
-		MinSize: verifU32("minSize"), MaxSize: verifU32("maxSize"), MaxConcurrentStreamsLowWatermark: verifU32("wm"),
-		FallbackToReady: verifBool("fallback"),
-	}}}
-	gb.addrs = []resolver.Address{{Addr: "a"}}
-	for i := 0; i < vM; i++ {
-		w.scs[i] = &verifSC{id: i}
-	}
-	for j := 0; j < vR; j++ {
-		w.refs[j] = &subConnRef{stateSignal: make(chan struct{}), streamsCnt: verifI32("streams" + verifD(j)), refreshing: verifBool("refreshing" + verifD(j))}
-		// slot's connection: one of the pre-existing ones or a retired one (nil stands for "left the universe")
-		w.refs[j].subConn = verifChoose[balancer.SubConn]("refsc"+verifD(j), w.scs[0], w.scs[1], nil)
-		gb.scRefList = append(gb.scRefList, w.refs[j])
-	}
-	for i := 0; i < vM; i++ {
-		sc := balancer.SubConn(w.scs[i])
-		inPool := verifBool("inPool" + verifD(i))
-		slot := verifChoose("slot"+verifD(i), w.refs[0], w.refs[1], w.refs[2])
-		verifMapPut(gb.scRefs, sc, slot, inPool)
-		verifMapPut(gb.scStates, sc, connectivity.State(verifInt("st"+verifD(i))), inPool)
-		st := gb.scStates[sc]
-		verifAssume(st >= 0 && st <= 3)
-		// replacement entries: a connection not in the pool may be the replacement of some refreshing slot
-		isRepl := verifBool("isRepl" + verifD(i))
-		rslot := verifChoose("rslot"+verifD(i), w.refs[0], w.refs[1], w.refs[2])
-		verifAssume(verifImplies(isRepl, verifAnd(!inPool, rslot.refreshing)))
-		verifMapPut(gb.refreshingScRefs, sc, rslot, isRepl)
-	}
-	// injectivity of scRefs and of refreshingScRefs
-	r0, ok0 := gb.scRefs[balancer.SubConn(w.scs[0])]
-	r1, ok1 := gb.scRefs[balancer.SubConn(w.scs[1])]
-	verifAssume(verifImplies(verifAnd(ok0, ok1), r0 != r1))
-	q0, k0 := gb.refreshingScRefs[balancer.SubConn(w.scs[0])]
-	q1, k1 := gb.refreshingScRefs[balancer.SubConn(w.scs[1])]
-	verifAssume(verifImplies(verifAnd(k0, k1), q0 != q1))
-	// pickers
-	w.errTF = &errPicker{err: balancer.ErrTransientFailure}
-	w.errNo = &errPicker{err: balancer.ErrNoSubConnAvailable}
-	list := []*subConnRef{
-		verifChoose("pk0", w.refs[0], w.refs[1], w.refs[2]),
-		verifChoose("pk1", w.refs[0], w.refs[1], w.refs[2]),
-	}
-	n := verifInt("pklen")
-	verifAssume(n >= 0 && n <= 2)
-	verifAssume(list[0] != list[1])
-	w.gp = &gcpPicker{gb: gb, scRefs: list[:n], log: gb.log}
-	gb.picker = verifChoose[balancer.Picker]("picker", w.gp, w.errTF, w.errNo)
-	cc.published = verifBool("published")
-	verifAssume(verifImplies(!cc.published, gb.picker == balancer.Picker(w.errNo)))
-	cc.lastState = connectivity.State(verifInt("lastState"))
-	cc.lastPicker = verifChoose[balancer.Picker]("lastPicker", w.gp, w.errTF, w.errNo)
-	w.inv(func(c bool, _ string) { verifAssume(c) })
-	return w
+	return &verifErrKind{kind: kind}
 }
